@@ -16,7 +16,7 @@ import (
 	insaneJSON "github.com/ozontech/insane-json"
 )
 
-func TestVerifOpenDecodeKeepOriginMangled(t *testing.T) {
+func TestVerifDecodeKeepOriginMangled(t *testing.T) {
 	const origin = `{"a":"xxxxxxxxxx","b":1}`
 	const input = `{"level":"error","log":"{\"a\":\"xxxxxxxxxx\",\"b\":1}"}`
 	config := test.NewConfig(&Config{
